@@ -304,9 +304,19 @@ impl<T: Qcow2IoOps> Qcow2Dev<T> {
         );
 
         // compressed image does have l1 ready, but backing dev may not
-        if !compressed {
-            let _ = self.ensure_l2_offset(&split).await?;
-        }
+        let l1_e = if !compressed {
+            self.ensure_l2_offset(&split).await?
+        } else {
+            self.get_l1_entry(&split).await?
+        };
+
+        // The cluster holding this l2 table may still be new: zero it now,
+        // exactly once, so that neither a later cache flush wipes the slice
+        // written below nor a reload after eviction rebuilds it as empty.
+        // It has to be done before locking the slice, because cache flush
+        // takes the new cluster's lock first and slice locks afterwards.
+        self.settle_new_meta_cluster(l1_e.l2_offset()).await?;
+
         let l2_handle = self.get_l2_slice(&split).await?;
 
         // hold l2_table write lock, so that new mapping won't be flushed
@@ -358,13 +368,6 @@ impl<T: Qcow2IoOps> Qcow2Dev<T> {
                 // flush refcount change, which is often small
                 // change
                 self.flush_refcount().await?;
-
-                // the cluster holding this slice may still be new: zero it
-                // now, exactly once, so that neither a later cache flush
-                // wipes the slice written below nor a reload after eviction
-                // rebuilds it as empty
-                self.settle_new_meta_cluster(l2_table.get_offset().unwrap())
-                    .await?;
 
                 // flush mapping table in-place update
                 self.flush_table(&*l2_table, 0, l2_table.byte_size())
